@@ -36,8 +36,9 @@ VARIABLES kind, types, lens, rev, seg0,   \* the case
 vars == <<kind, types, lens, rev, seg0, seg, i, used, head, dirs, pc>>
 N == Len(types)
 Total == SumAbs(lens, N)
-(* the segment the loop looks at in iteration j: path.length_[2 - i] for a reversed Dubins word *)
-Ix(j) == IF rev THEN N + 1 - j ELSE j
+(* the segment the loop looks at in iteration j (i = j - 1 in the code): path.length_[i], or path.length_[2 - i] *)
+(* for a reversed Dubins word (1-based here)                                                                  *)
+Ix(j) == IF rev THEN (2 - (j - 1)) + 1 ELSE j
 
 Init == /\ \/ /\ kind = "dubins" /\ types \in DubinsWords /\ lens \in [1..3 -> 0..MaxLen] /\ rev \in BOOLEAN
            \/ /\ kind = "rs" /\ types \in {Row(n) : n \in 0..17} /\ rev = FALSE
@@ -85,6 +86,11 @@ AgreesWithClosedForm == Done => \A j \in 1..N : UsedAt(j) = Closed(j)
 NoZeroLengthPieceIsLast == Done /\ seg0 > 0 => used # <<>> /\ used[Len(used)] # 0
 EndHeading == (Done /\ seg0 = Total)
               => head = (IF rev THEN 0 - 1 ELSE 1) * Turning(N)
+(* a reversed word is the curve of the opposite direction driven from its end: at t = 1 the pieces consumed are *)
+(* the segments of the word from last to first, whole (stated without reference to the loop's indexing)         *)
+ReversedReadsFromTheEnd ==
+    (Done /\ seg0 = Total /\ \A n \in 1..N : lens[n] # 0)
+    => used = [n \in 1..N |-> IF rev THEN lens[N + 1 - n] ELSE lens[n]]
 DubinsNeverReverses == (Done /\ kind = "dubins") => \A a, b \in 1..Len(dirs) : dirs[a] = dirs[b]
 DubinsForwardUnlessReversed == (Done /\ kind = "dubins") => \A a \in 1..Len(dirs) : dirs[a] = (IF rev THEN 0 - 1 ELSE 1)
 Land == IF used = <<>> THEN 0 ELSE Len(used)
